@@ -361,3 +361,36 @@ def txt( node ):
     """whitespace-free normalised source of a node"""
     s = ast.unparse( node ) if isinstance( node, ast.AST ) else str( node )
     return re.sub( r'\s+', '', s ).replace( '"', "'" )
+
+
+class Matcher:
+    """pattern matching with bindings shared across several patterns: wildcards bound by one match constrain the following ones,
+    so a rule can follow a *role* (the accumulator, the loop variable ...) instead of a fixed local name"""
+    def __init__( self ):
+        self.b = Binds()
+
+    def m( self, node, pattern ):
+        r = pmatch( node, pattern, self.b )
+        if r is not None:
+            self.b = r
+            return True
+        return False
+
+    def find( self, root, pattern, nested=True ):
+        """first node under root matching pattern (bindings are kept); None if none"""
+        it = ast.walk( root ) if nested else walk_no_nested( root, include_self=True )
+        for n in it:
+            if isinstance( n, ast.Expr ):
+                continue
+            r = pmatch( n, pattern, self.b )
+            if r is not None:
+                self.b = r
+                return n
+        return None
+
+    def all( self, root, pattern ):
+        return [ n for n, m in pfind( root, pattern ) if pmatch( n, pattern, self.b ) is not None ]
+
+    def name( self, w ):
+        v = self.b.get( w )
+        return v.id if isinstance( v, ast.Name ) else ( ast.unparse( v ) if v is not None else None )
